@@ -34,7 +34,13 @@ RULE = (
     "any/all generators, typed matchers; the interpreted-only fields(<type>) helper; helper functions applied to string[] / "
     "stringlist fields with mixed-case elements) plus deliberately raising ones; sources that interleave two record "
     "types with different field sets, in both orders; after every purity case case-sensitive follow-up selectors must "
-    "answer on the matched record objects as on a freshly built copy of the pool.  A filter case is non-trivial when the source "
+    "answer on the matched record objects as on a freshly built copy of the pool.  No-caching cases: (i) flat records that "
+    "compare == to their predecessor under an active ignore-fields configuration ({_source} / {_generated} / a data field; "
+    "restored afterwards) but differ in exactly that field, selectors reading it, through match() in a loop (long-lived "
+    "Selector and CompiledSelector vs fresh objects) and through the stream / JSON readers; (ii) a record matched, modified "
+    "by attribute assignment, matched again: the second answer equals a fresh selector's.  Grouped records of one name but "
+    "varying composition (lacking k/l/n first then having them, and the reverse) through stream / stream.gz / jsonfile in all "
+    "selector forms, in loops in both directions, and in the fresh-process order comparison.  A filter case is non-trivial when the source "
     "holds >= 2 records; it is *discriminating* when the selector keeps some but not all records (counted per adapter, "
     "required > 0); distinct = distinct (adapter, sequence seed, expression, form)."
 )
@@ -122,7 +128,8 @@ COLD_FIXED = [
     'lower(r.s) == "hello"', 'upper(r.t) == "HELLO"', 'Type.string == "Hello"', 'name(r) == "sel/small"', '"sel/other" in names(r)',
     'has_field(r, "k")', 'any(x == "Hello" for x in r.l)', 'r.n > 2',
     'any(f.name == "n" for f in fields("varint"))', 'any(f.name == "t" for f in fields("string"))', '"hello" in lower(r.l)',
-    'field_contains(r, ["l", "sl"], ["hello"])',
+    'field_contains(r, ["l", "sl"], ["hello"])', "r.k == 1", "r.k >= 0 or r.f > 1", '"Hello" in r.l', "r.n == r.k", 'has_field(r, "k")',
+    "r.k in [0, 1, 2, 3, 5, 7, 100]",
 ]
 
 
@@ -209,8 +216,73 @@ def flat_records(rng, n):
 
 
 def build_pool(rng):
-    """The in-memory record pool of the purity cases (also rebuilt, from the same seed, by verif/worker_c10.py)."""
-    return selgen.record_pool(rng, grouped=True) + flat_records(rng, 3)
+    """The in-memory record pool of the purity cases (also rebuilt, from the same seed, by verif/worker_c10.py): the selgen
+    pool (its last record is a grouped small+other), flat records, and grouped records of the same name in other compositions
+    (lacking k / l, having them, lacking them)."""
+    pool = selgen.record_pool(rng, grouped=True) + flat_records(rng, 3)
+    g = group_records(rng)
+    return pool + [g["L"][0], g["H"][0], g["L"][1]]
+
+
+GROUP_NAME = "sel/grouped"  # the name selgen's grouped record uses: compositions differ, the name does not
+
+
+def group_records(rng):
+    """Grouped records of one name but varying composition: L lacks the fields k / l / n (other + flat members), H has
+    them (small + other members).  -> {"L": [...], "H": [...]}"""
+    from flow.record import GroupedRecord
+
+    D = selgen.descriptors()
+    out = {"L": [], "H": []}
+    for _ in range(3):
+        out["L"].append(GroupedRecord(GROUP_NAME, [selgen._other(rng, D), flat_records(rng, 1)[0]]))
+        out["H"].append(GroupedRecord(GROUP_NAME, [selgen._small(rng, D), selgen._other(rng, D)]))
+    return out
+
+
+def grouped_sequence(seed, order):
+    rng = random.Random(seed)
+    g = group_records(rng)
+    first, second = ("L", "H") if order == "lacking-first" else ("H", "L")
+    seq = [rng.choice(g[first]) for _ in range(rng.randint(2, 3))] + [rng.choice(g[second]) for _ in range(rng.randint(2, 3))]
+    seq += [rng.choice(g[rng.choice("LH")]) for _ in range(rng.randint(1, 4))]
+    return seq
+
+
+GROUPED_EXPR = [
+    "r.k == 1", "r.k > 1", "r.k in [0, 1, 2, 3, 5, 7, 100]", 'has_field(r, "k")', "r.k", "r.k + 1 > 2", '"Hello" in r.l', "r.n == r.k", 'r.s == "Hello"',
+    "r.k >= 0 or r.f > 1", "not r.k == 1", 'r.m >= 0', 'r.by == b"ab"', 'any(x for x in r.l)', 'name(r) == "sel/grouped"', '"sel/small" in names(r)',
+    'r.t == "Hello" and r.k >= 0', "Type.varint > 2", 'field_contains(r, ["s", "t"], ["hello"])',
+]
+
+IGNORED = {
+    "_source": {"values": ["srcA", "srcB", "srcC"],
+                "exprs": ['r._source == "srcA"', '"B" in r._source', 'lower(r._source) == "srcc"', 'field_contains(r, ["_source"], ["srca"])',
+                          'r._source != "srcB" and r.s == "Hello"']},
+    "_generated": {"values": [(2020, 1, 1), (2021, 6, 6), (2022, 12, 31)],
+                   "exprs": ["r._generated.year == 2020", 'str(r._generated) < "2021"', "r._generated.year > 2020 and r.n == 1",
+                             "r._generated.month == 6"]},
+    "t": {"values": ["Hello", "x", "hello world"],
+          "exprs": ['r.t == "Hello"', 'lower(r.t) == "x"', '"ell" in r.t', 'field_equals(r, ["t"], ["hello"])', 'Type.string == "x"']},
+}
+
+
+def ignored_sequence(seed, field):
+    """Flat records that are pairwise == once `field` is ignored for comparison, but differ in exactly that field; consecutive
+    records repeat and change the value (a a b b a c ...)."""
+    rng = random.Random(seed)
+    D = flat_descriptor()
+    vals = IGNORED[field]["values"]
+    gen0 = _dt.datetime(2019, 3, 3, 3, 3, 3, tzinfo=_dt.timezone.utc)
+    seq = []
+    v = rng.choice(vals)
+    for _ in range(rng.randint(6, 10)):
+        if rng.random() < 0.6:
+            v = rng.choice([x for x in vals if x != v])
+        kw = dict(s="Hello", t="x", n=1, m=2, f=1.5, b=True, d=gen0, by=b"ab", u="http://x/y/z.txt", _source="src0", _generated=gen0)
+        kw[field] = _dt.datetime(*v, tzinfo=_dt.timezone.utc) if field == "_generated" else v
+        seq.append(D(**kw))
+    return seq
 
 
 def shape_label(rec):
@@ -433,6 +505,23 @@ def generate(ctx):
                         yield {"k": "filter", "adapter": adapter, "seq": subseed("c10", "interleave", adapter, pi, ei % 3), "interleave": list(pair),
                                "expr": e, "ek": "fields-helper" if exprs is FIELDS_EXPR else "list-helper"}
                     idx += 1
+    # records that compare == to their predecessor (active ignore-fields configuration) but differ in what the selector reads
+    for field in IGNORED:
+        for ei, e in enumerate(IGNORED[field]["exprs"]):
+            for rep in range(3):
+                if ctx.mine(idx):
+                    yield {"k": "ignored", "field": field, "expr": e, "seq": subseed("c10", "ignored", field, ei, rep)}
+                idx += 1
+    # grouped records of one name but varying composition, compiled engine included, through the binary stream
+    for adapter in ("stream", "stream-gz", "jsonfile"):
+        for order in ("lacking-first", "having-first"):
+            for ei, e in enumerate(GROUPED_EXPR):
+                if ctx.mine(idx):
+                    yield {"k": "grouped", "adapter": adapter, "order": order, "expr": e, "ek": "grouped", "seq": subseed("c10", "grouped", order, ei % 5)}
+                idx += 1
+    # the same record object matched, modified by attribute assignment, matched again
+    for i in range(ctx.scale(12, 60) if True else 0):
+        yield {"k": "mutate", "pool": subseed("c10", ctx.seed, ctx.shard, "mutpool", i), "engine": ("interpreted", "compiled")[i % 2]}
     # helper functions on list fields, followed by case-sensitive questions (purity cases with a fixed expression)
     for ei, e in enumerate(LIST_HELPER_EXPR + FIELDS_EXPR):
         for engine in ("interpreted", "compiled"):
@@ -462,6 +551,12 @@ def execute(ctx, case):
         run_filter(ctx, case)
     elif case["k"] == "cold":
         run_cold(ctx, case)
+    elif case["k"] == "ignored":
+        run_ignored(ctx, case)
+    elif case["k"] == "grouped":
+        run_grouped(ctx, case)
+    elif case["k"] == "mutate":
+        run_mutate(ctx, case)
     else:
         run_purity(ctx, case)
 
@@ -496,9 +591,12 @@ def outcome_of(fn):
         return ("truth-exc", type(e).__name__)
 
 
-def run_filter(ctx, case):
+def run_filter(ctx, case, prebuilt=None):
     adapter = case["adapter"]
-    seq, kind = build_sequence(ctx, adapter, case["seq"], case.get("shape"), case.get("interleave"))
+    if prebuilt is not None:
+        seq, kind = prebuilt
+    else:
+        seq, kind = build_sequence(ctx, adapter, case["seq"], case.get("shape"), case.get("interleave"))
     if len(seq) < 2:
         ctx.event("skipped_no_storable_shape:" + adapter)
         return
@@ -701,6 +799,106 @@ def run_purity(ctx, case):
     ctx.sample({"purity": expr, "engine": case["engine"], "outcomes": sorted({str(o) for o in fresh_out})}, kind="purity:" + case["engine"])
 
 
+# ---- oracle: no result caching across records ---------------------------------------------------------------------
+def loop_outcomes(ctx, expr, records, detail, what):
+    """One long-lived object per engine over the records in order vs a fresh object per record."""
+    selector = ctx.state["selector"]
+    for engine, cls in (("interpreted", selector.Selector), ("compiled", selector.CompiledSelector)):
+        try:
+            long = cls(expr)
+        except Exception:  # noqa: BLE001
+            ctx.event("selector_not_constructible")
+            continue
+        ctx.ev()
+        got = [outcome_of(lambda r=r: long.match(r)) for r in records]
+        want = [outcome_of(lambda r=r: cls(expr).match(r)) for r in records]
+        ctx.event(what + "_loops")
+        if len({tuple(o) for o in want}) > 1:
+            ctx.event(what + "_discriminating")
+        if got != want:
+            i = next(j for j in range(len(got)) if got[j] != want[j])
+            ctx.violation(None, "a long-lived selector object does not re-evaluate every record (%s)" % what,
+                          detail=dict(detail, engine=engine, index=i, long_lived=got[i], fresh=want[i], record=repr(records[i])[:300]))
+        ctx.nontrivial(what, expr, engine, detail.get("field") or detail.get("order"))
+
+
+def run_ignored(ctx, case):
+    import flow.record.base as base
+
+    field, expr = case["field"], case["expr"]
+    seq = ignored_sequence(case["seq"], field)
+    detail = {"expression": expr, "field": field, "ignored_for_comparison": [field], "records": len(seq)}
+    original = base.IGNORE_FIELDS_FOR_COMPARISON
+    base.set_ignored_fields_for_comparison({field})
+    try:
+        pairs = sum(1 for a, b in zip(seq, seq[1:]) if a == b and observe.obs(a) != observe.obs(b))
+        if not pairs:
+            ctx.event("ignored_no_equal_but_different_neighbours")
+            return
+        ctx.event("ignored_equal_but_different_neighbours", pairs)
+        loop_outcomes(ctx, expr, seq, detail, "ignored-field")
+        for adapter in ("stream", "jsonfile"):
+            run_filter(ctx, {"adapter": adapter, "expr": expr, "ek": "ignored-field:" + field, "seq": case["seq"]}, prebuilt=(seq, "equal-neighbours:" + field))
+        ctx.cell("ignored-field", field)
+    finally:
+        base.set_ignored_fields_for_comparison(original)
+    if base.IGNORE_FIELDS_FOR_COMPARISON != original:
+        ctx.require(False, "the ignore-fields configuration could not be restored")
+
+
+def run_grouped(ctx, case):
+    seq = grouped_sequence(case["seq"], case["order"])
+    detail = {"expression": case["expr"], "order": case["order"], "records": len(seq)}
+    loop_outcomes(ctx, case["expr"], seq, detail, "grouped-compositions")
+    loop_outcomes(ctx, case["expr"], list(reversed(seq)), dict(detail, reversed=True), "grouped-compositions")
+    run_filter(ctx, case, prebuilt=(seq, "grouped:" + case["order"]))
+    ctx.cell("grouped-compositions", case["adapter"], case["order"])
+
+
+def run_mutate(ctx, case):
+    """match(r); r.<field> = other value; match(r) again with the same selector object == a fresh selector's answer."""
+    selector = ctx.state["selector"]
+    cls = selector.Selector if case["engine"] == "interpreted" else selector.CompiledSelector
+    rng = random.Random(case["pool"])
+    pool = build_pool(rng)
+    done = 0
+    for r in pool:
+        fields = getattr(r._desc, "fields", {})
+        cands = [f for f in ("s", "t", "n", "m", "k") if f in fields and getattr(r, f, None) is not None and f in getattr(r, "__slots__", ())]
+        if not cands:
+            continue
+        f = rng.choice(cands)
+        old = getattr(r, f)
+        if isinstance(old, str):
+            new = rng.choice([x for x in selgen.TEXTS if x != old])
+            expr = rng.choice(["r.%s == %r" % (f, str(old)), "lower(r.%s) == %r" % (f, str(old).lower()), "r.%s != %r" % (f, str(new)),
+                               "field_equals(r, [%r], [%r])" % (f, str(old)), "%r in r.%s" % (str(old)[:2], f)])
+        else:
+            new = rng.choice([x for x in selgen.INTS if x != old])
+            expr = rng.choice(["r.%s == %d" % (f, old), "r.%s > %d" % (f, min(old, new)), "r.%s + 1 == %d" % (f, old + 1), "r.%s in [%d]" % (f, old)])
+        try:
+            long = cls(expr)
+        except Exception:  # noqa: BLE001
+            continue
+        ctx.ev()
+        first = outcome_of(lambda: long.match(r))
+        setattr(r, f, new)
+        second = outcome_of(lambda: long.match(r))
+        fresh_second = outcome_of(lambda: cls(expr).match(r))
+        ctx.event("mutate_cases")
+        if first != fresh_second:
+            ctx.event("mutate_answer_changes")
+        if second != fresh_second:
+            ctx.violation(None, "a record matched again after an attribute assignment got the answer of its old value",
+                          detail={"expression": expr, "engine": case["engine"], "field": f, "old": repr(old), "new": repr(new),
+                                  "first": first, "second_same_object": second, "fresh_selector": fresh_second})
+        ctx.nontrivial("mutate", case["pool"], expr, case["engine"])
+        done += 1
+        if done >= 6:
+            break
+    ctx.cell("mutate-then-rematch", case["engine"])
+
+
 # ---- oracle: independence of history, including process-wide state -------------------------------------------
 def cold_worker(req):
     p = subprocess.run([sys.executable, "-W", "ignore", "-m", "verif.worker_c10"], input=json.dumps(req), capture_output=True, text=True,
@@ -760,6 +958,7 @@ def finish(ctx):
     ev = ctx.events
     ctx.require(ev["compared_ok"] > 0, "no filter case was compared")
     ctx.require(ev["purity_cases"] > 0, "no purity case ran")
+    ctx.require(ev["mutate_answer_changes"] > 0, "no mutate-then-rematch case in which the answer changes ran")
     ctx.require(ev["followup_comparisons"] > 0, "no follow-up comparison against a fresh copy of the pool ran")
     ctx.require(ev["cold_batches"] > 0 and ev["cold_discriminating"] > 0, "the fresh-process order comparison did not run (or had no discriminating expression)")
     ctx.require(ev["wrap:Selector.match"] > 0 and ev["wrap:CompiledSelector.match"] > 0, "the match recorders never ran")
